@@ -36,7 +36,7 @@ MANIFEST = dict(
     note="trusted: Lean kernel; hand-written model (differential: quick 30 CLI runs, thorough 300); htslib parsing and "
          "serialisation (the oracle's baseline is a pysam copy of the input). phased_only_if_het_supported needs the "
          "tag-independent removal of fixes/F4.patch; on the unpatched repo --tag HP leaves stale phase marks of the input "
-         "(reported, key stale-mark) and can write a NUL byte as HP value (F12, key output-unparsable)",
+         "(reported, key stale-mark) and can write a NUL byte as HP value (F21, key output-unparsable)",
     technique="Lean 4 proof on a record-level writer/header model + differential correspondence + text-level diff oracle on CLI runs",
 )
 ASSUMPTIONS = [
